@@ -74,6 +74,17 @@ Theorem C14_accepted_handle_wellformed :
 Proof. exact read_wf. Qed.
 Print Assumptions C14_accepted_handle_wellformed.
 
+(* Exact acceptance: a byte string yields a handle if and only if it decodes
+   to a well-formed keyset every key of which its own parser (or the fallback
+   for unknown type URLs) accepts, RAW keys with id requirement 0. *)
+Theorem C14_read_accepts_iff :
+  forall ec_point_ok ec_pub_of_priv b,
+    (exists h, read ec_point_ok ec_pub_of_priv b = Ok h) <->
+    (exists ks, decode_keyset b = Some ks /\ wf_keyset ks
+       /\ Forall (key_parses ec_point_ok ec_pub_of_priv) (ks_keys ks)).
+Proof. exact read_ok_iff. Qed.
+Print Assumptions C14_read_accepts_iff.
+
 Theorem C14_accepted_handle_wellformed_other_readers :
   forall ec_point_ok ec_pub_of_priv,
     (forall b h, read_no_secrets ec_point_ok ec_pub_of_priv b = Ok h ->
